@@ -57,8 +57,10 @@ Definition mk_comparison (op : cop) (l r : tok) : res expr :=
        | _ => Err EBuild
        end.
 
-(* internalNewEvaluator *)
-Fixpoint build (fuel : nat) (ce : list tok) : res (expr * list tok) :=
+(* internalNewEvaluator.  [lenient] = the repair of the parenthesis case is applied: a token other than AND / OR
+   after "( clause )" is left to the caller instead of being an error (false = the code as found, which rejects
+   "( ( A ) and ( B ) ) or ( C )" and "( ( ( A ) ) )"). *)
+Fixpoint build (lenient : bool) (fuel : nat) (ce : list tok) : res (expr * list tok) :=
   match fuel with
   | O => Err EFuel
   | S f =>
@@ -67,7 +69,7 @@ Fixpoint build (fuel : nat) (ce : list tok) : res (expr * list tok) :=
       | head :: tail =>
           match tk head with
           | KNot =>
-              match build f tail with
+              match build lenient f tail with
               | Ok (e, rest) => Ok (ENot e, rest)
               | Err x => Err x | Panic s => Panic s | Fatal => Fatal
               end
@@ -84,7 +86,7 @@ Fixpoint build (fuel : nat) (ce : list tok) : res (expr * list tok) :=
               | _ => Err EBuild
               end
           | KLPar =>
-              match build f tail with
+              match build lenient f tail with
               | Ok (e, ce') =>
                   match ce' with
                   | [] => Err EBuild                                  (* missing ')' *)
@@ -99,9 +101,9 @@ Fixpoint build (fuel : nat) (ce : list tok) : res (expr * list tok) :=
                                         | _ => None
                                         end in
                               match mk with
-                              | None => Err EBuild
+                              | None => if lenient then Ok (e, tl) else Err EBuild
                               | Some con =>
-                                  match build f rhs with
+                                  match build lenient f rhs with
                                   | Ok (e2, rest) => Ok (con e e2, rest)
                                   | Err x => Err x | Panic s => Panic s | Fatal => Fatal
                                   end
@@ -119,8 +121,8 @@ Fixpoint build (fuel : nat) (ce : list tok) : res (expr * list tok) :=
   end.
 
 (* NewEvaluator: everything must be consumed, except that ONE trailing ')' is tolerated *)
-Definition new_evaluator (ce : list tok) : res expr :=
-  match build (S (length ce)) ce with
+Definition new_evaluator_with (lenient : bool) (ce : list tok) : res expr :=
+  match build lenient (S (length ce)) ce with
   | Ok (e, tail) =>
       match tail with
       | [] => Ok e
@@ -129,6 +131,10 @@ Definition new_evaluator (ce : list tok) : res expr :=
       end
   | Err x => Err x | Panic s => Panic s | Fatal => Fatal
   end.
+
+(* the current tree (repairs applied so far) *)
+Definition cur_lenient_parens : bool := true.     (* repo commit baa1aee *)
+Definition new_evaluator := new_evaluator_with cur_lenient_parens.
 
 (* ---- Evaluate ----------------------------------------------------------------------------------------------- *)
 (* formatCell *)
